@@ -206,6 +206,9 @@ class PseudoNetCDFVariable(np.ndarray):
         if 'values' in kwds.keys():
             result = kwds.pop('values')
             typecode = result.dtype.char
+            if typecode == 'S':
+                # single characters; 'S' alone is not a netCDF type code
+                typecode = 'c'
             # Adding easy default dimension object;
             # Avoiding PseudoNetCDFFile due to recursive dependence
             if parent is None:
